@@ -84,7 +84,7 @@ func zzU256(b []byte) uint256.Int {
 // (the 32-byte word the input carries).
 func zzCheckCell(typ string, got any, want []byte, id string) {
 	switch typ {
-	case "uint256", "uint8":
+	case "uint256", "uint8", "uint64":
 		x, ok := got.(*uint256.Int)
 		zzvrf.Assert(ok, id+"-type")
 		if ok {
@@ -364,6 +364,96 @@ func ZZ_C11_Insert(mode int) {
 			la, ok := row[col("log_addr")].([]byte)
 			zzvrf.Assert(ok && zzvrf.BytesEq(la, it.bytes), "log_addr-of-its-own-log")
 		}
+	}
+	zzvrf.Reach("end")
+}
+
+var zzElemTypes = []string{"address", "uint256", "int256", "uint8", "bytes32", "uint64"}
+
+// ZZ_C11_Array: an event whose selected input is an array (T[] or T[k]) of a
+// static leaf type; the log data is the reference ABI encoding (c09.go) of
+// alen symbolic elements. One row per element; the cell is the element mapped
+// by its leaf type (addresses 20 bytes, integers exact), abi_idx counts from 0.
+//   elem   index into zzElemTypes
+//   fixed  0: T[] with alen elements; k>0: T[k]
+//   second 1: a second selected scalar input follows the array
+func ZZ_C11_Array(elem, fixed, alen, second int) {
+	leaf := zzElemTypes[elem]
+	typ := leaf + "[]"
+	n := alen
+	if fixed > 0 {
+		typ = leaf + "[" + string(rune('0'+fixed)) + "]"
+		n = fixed
+	}
+	ev := Event{Name: "Ev", Type: "event"}
+	tbl := wpg.Table{Name: "t"}
+	ev.Inputs = append(ev.Inputs, Input{Name: "a", Type: typ, Column: "c_a"})
+	tbl.Columns = append(tbl.Columns, wpg.Column{Name: "c_a", Type: "bytea"})
+	if second == 1 {
+		ev.Inputs = append(ev.Inputs, Input{Name: "b", Type: "address", Column: "c_b"})
+		tbl.Columns = append(tbl.Columns, wpg.Column{Name: "c_b", Type: "bytea"})
+	}
+	bds := []BlockData{{Name: "abi_idx", Column: "abi_idx"}, {Name: "log_idx", Column: "log_idx"}}
+	for _, bd := range bds {
+		tbl.Columns = append(tbl.Columns, wpg.Column{Name: bd.Column, Type: "x"})
+	}
+	ig, err := New("ig1", ev, bds, tbl, Notification{}, "")
+	zzvrf.Assert(err == nil, "new-ok")
+	if err != nil {
+		return
+	}
+	var tys []zzTy
+	var vals []zzVal
+	for _, in := range ev.Inputs {
+		t := zzParse(in)
+		tys = append(tys, t)
+		vals = append(vals, zzGen(t, alen, 0))
+	}
+	data := zzEncSeq(tys, vals)
+	lg := zzMakeLog(1, data)
+	copy(lg.lwc.l.Topics[0], ig.sighash)
+	var rows [][]any
+	var perr error
+	panicked := false
+	func() {
+		defer func() {
+			if r := recover(); r != nil {
+				panicked = true
+			}
+		}()
+		rows, perr = ig.processLog(nil, lg.lwc, &sync.Mutex{}, nil)
+	}()
+	zzvrf.Assert(!panicked, "no-panic")
+	if panicked {
+		return
+	}
+	zzvrf.Assert(perr == nil, "valid-encoding-accepted")
+	if perr != nil {
+		return
+	}
+	if n > 0 {
+		zzvrf.Assert(len(rows) == n, "one-row-per-element")
+	}
+	if len(rows) != n {
+		zzvrf.Reach("end")
+		return
+	}
+	for i := 0; i < n; i++ {
+		row := rows[i]
+		zzvrf.Assert(len(row) == len(ig.Columns), "row-width")
+		if len(row) != len(ig.Columns) {
+			return
+		}
+		zzCheckCell(leaf, row[0], vals[0].elems[i].word, "array-element-mapped-by-its-leaf-type")
+		col := 1
+		if second == 1 {
+			zzCheckCell("address", row[1], vals[1].word, "scalar-next-to-array")
+			col = 2
+		}
+		ai, ok := row[col].(int)
+		zzvrf.Assert(ok && ai == i, "abi_idx-counts-elements-from-zero")
+		li, ok := row[col+1].(eth.Uint64)
+		zzvrf.Assert(ok && li == lg.lwc.l.Idx, "log_idx")
 	}
 	zzvrf.Reach("end")
 }
